@@ -492,7 +492,8 @@ func (env *ExecEnv) split(f *field) []*field {
 					default:
 						ws = false
 					}
-					i = j + utf8.RuneLen(r)
+					_, w := utf8.DecodeRuneInString(s[j:])
+					i = j + w
 				} else {
 					ws = false
 				}
